@@ -438,6 +438,12 @@ def glue_run(cfg, ops, root=None):
         _AUD["roots"] = tuple({os.path.realpath(w.data_dir), os.path.realpath(w.meta_dir), w.data_dir, w.meta_dir})
         for i, op in enumerate(ops):
             op = list(op)
+            if op[0] == "reopen":
+                # another backend object over the same directories (a second session): its cache starts empty, the store is as it was;
+                # whatever is read through it is resident from then on
+                w.be = w._open(type(w.be), False)
+                hot = set()
+                continue
             if not spec.admissible(op):
                 continue
             if op[0] == "memoize":
@@ -483,13 +489,23 @@ GLUE_CORPUS = [
      ["lookread", 1, 2], ["ismem", 1, 1]],
     # a value read from the store is resident afterwards (new backend object = empty cache is not modelled here: same object)
     [["memoize", 5, 1, 1, 20], ["fcall", 5, 1], ["memoize", 5, 1, 1, 21], ["lookread", 5, 1], ["getm", [[5, 1]]], ["ismem", 5, 1]],
+    # a second session over the same store: the first read of a call goes to the store, every later one is served from memory
+    [["memoize", 1, 1, None, 9], ["memoize", 1, 2, None, 10], ["reopen"], ["lookread", 1, 1], ["lookread", 1, 1], ["getm", [[1, 1]]], ["ismem", 1, 1],
+     ["lookread", 1, 2], ["lookread", 1, 2], ["lookread", 1, 1]],
+    [["memoize", 4, 1, None, 12], ["memoize", 5, 1, 1, 20], ["reopen"], ["getm", [[4, 1], [5, 1]]], ["lookread", 4, 1], ["lookread", 5, 1],
+     ["lookread", 4, 1], ["lookread", 5, 1], ["reopen"], ["ismem", 4, 1], ["lookread", 4, 1], ["lookread", 4, 1]],
 ]
 
 
 def glue_gen(rng, n):
     import storeworld as sw
     ops = sw.gen_ops(rng, n, fns=rng.choice([None, [1, 2, 4], [1, 5]]), part_rate=0.0)
-    return [o for o in ops if o[0] not in ("hold", "drop", "lsml")]
+    ops = [o for o in ops if o[0] not in ("hold", "drop", "lsml")]
+    if rng.random() < 0.5 and len(ops) > 4:
+        i = rng.randrange(2, len(ops))
+        reads = [o for o in ops[:i] if o[0] == "memoize"][-2:]
+        ops = ops[:i] + [["reopen"]] + [["lookread", o[1], o[2]] for o in reads for _ in (0, 1)] + ops[i:]
+    return ops
 
 
 
@@ -644,6 +660,14 @@ def main(chk, replay=None):
 
 
 CORPUS = [
+    # the very same object (an array the caller still holds / a memento without value) written again for its call is a use of that
+    # call: the put that needs room afterwards drops the other one
+    dict(budget=1000, ops=[["put", 1, 1, 1, "a", 300, 1], ["put", 1, 2, 2, "b", 300, 1], ["put", 1, 1, 1, "a", 300, 1], ["put", 1, 3, 3, "b", 300, 1],
+                           ["getm", [[1, 1], [1, 2], [1, 3]]], ["read", 1, 1]]),
+    dict(budget=400, ops=[["put", 1, 1, 0, "b", 4, 0], ["put", 1, 2, 2, "b", 300, 1], ["put", 1, 1, 0, "b", 4, 0], ["put", 1, 3, 3, "b", 100, 1],
+                          ["getm", [[1, 1], [1, 2], [1, 3]]]]),
+    dict(budget=1000, ops=[["put", 2, 1, 1, "s", 300, 1], ["put", 1, 2, 2, "b", 300, 1], ["put", 2, 1, 1, "s", 300, 1], ["put", 1, 3, 3, "b", 300, 1],
+                           ["getm", [[2, 1], [1, 2], [1, 3]]], ["read", 2, 1]]),
     # a group query [missing, (1,1)] is a use of (1,1) although it is listed after a call that is not resident: the put
     # that needs room must drop (1,2)
     dict(budget=1000, ops=[["put", 1, 1, 1, "b", 250, 1], ["put", 1, 2, 2, "b", 250, 1], ["put", 1, 3, 3, "b", 250, 1],
